@@ -45,4 +45,9 @@ TEXTS["C15"] = {
     "note": "Real config code of every component from /repo. The field specification is the trusted independent oracle for 'no setting silently dropped'.",
     "technique": "property-based testing against a field specification with round-trip/fixpoint oracles (rapid)",
 }
+TEXTS["C16"] = {
+    "level": "Generated-input search with fault injection: pins (recursive, direct, with depth, origins, update source), prior daemon pin states and a behaviour per daemon endpoint (success, IPFS error body, non-JSON error, dropped connection, stalls, progress then drop / trailer error / slow progress, caller cancellation) are run through the real connector against a scripted go-ipfs fake; oracle: success only if the fake's pin table holds / does not hold the CID in the asked mode, no mutating request when already pinned as asked, unpin of an absent CID succeeds, pin/update only from a recursively pinned source and with unpin=false, a stalled pin fails within a bound, no fault => success. Exploration level.",
+    "note": "Real ipfsconn/ipfshttp from /repo over real HTTP on loopback; trusts the fake daemon's fidelity to go-ipfs (status codes, message strings, trailers).",
+    "technique": "property-based testing with fault injection against a scripted fake daemon (rapid)",
+}
 PENDING = {}
